@@ -61,7 +61,7 @@ pub fn h_verify() {
         0 => Some(data.len() as u64),
         1 => Some(data.len() as u64 + 1),
         2 => None,
-        3 => Some(sym::any_u8("size") as u64),
+        3 => Some(sym::any_u64("size")),
         _ => Some(data.len() as u64),
     };
     let mut di = Distinfo::new();
